@@ -529,6 +529,8 @@ theorem outTok_flush (U : List UInt8) (ts : List Tok) (bs : List UInt8)
       simp only [List.mem_singleton] at ht
       subst ht
       refine .high c ?_
+      simp only [staysEscaped, Bool.or_eq_true, not_or] at hc1
+      have hc1 := hc1.1
       simp only [isC1, Bool.and_eq_true, decide_eq_true_eq, not_and, Nat.not_le] at hc1
       have : 0x80 ≤ c.toNat := hs
       have := hc1 this
@@ -618,6 +620,8 @@ theorem flush_mem (bs : List UInt8) (hb : ∀ b ∈ bs, 0x80 ≤ b.toNat) {t : T
         simp only [List.mem_singleton] at ht
         right
         refine ⟨c, ht, ?_⟩
+        simp only [staysEscaped, Bool.or_eq_true, not_or] at hc1
+        have hc1 := hc1.1
         simp only [isC1, Bool.and_eq_true, decide_eq_true_eq, not_and, Nat.not_le] at hc1
         have h80 : 0x80 ≤ c.toNat := hs
         have := hc1 h80
